@@ -75,7 +75,10 @@ def make_callable(module, qualname):
 
 
 CALLABLE_IDS = [('builtins', 'sorted'), ('builtins', 'dict'), ('__main__', 'main_fn'), ('__main__', 'Outer.Inner'), ('pkg', 'f'), ('pkg.sub.mod', 'Cls'),
-                ('pkg.sub.mod', 'Outer.Inner.deep'), ('a_very_long_package_name.with_a_long_module_name', 'AndALongClassName')]
+                ('pkg.sub.mod', 'Outer.Inner.deep'), ('a_very_long_package_name.with_a_long_module_name', 'AndALongClassName'),
+                # same __name__ as another callable of the same module, different qualified name (Train.Config / Evaluate.Config)
+                ('pkg.sub.mod', 'Other.Cls'), ('pkg.sub.mod', 'Outer.Inner.Cls'), ('pkg', 'Outer.f'), ('__main__', 'Inner'), ('__main__', 'Other.main_fn'),
+                ('pkg', 'sorted')]
 KWNAMES = ['a', 'b', 'zz', '_x', 'class_', 'é', 'value', 'a_rather_long_keyword_argument_name', 'k9', 'A',
            'fn', 'ctx', 'args', 'kwargs', 'type', 'doc', 'indent', 'fndoc', 'argdocs', 'kwargdocs', 'hug_sole_arg', 'trailing_comment', 'key', 'default', 'object', 'end']
 
